@@ -6,15 +6,34 @@ model (`reduceStep` on a step without links; key-shape failures would be `keyUsa
 panic-freedom is a theorem about reachable outcomes, not an artefact of totalisation.  Hangs: every
 model function is total by structural recursion (fuel = directory depth for sublayouts, pattern /
 input length for the matcher and the parser), accepted by Lean without `partial`.
-(Interim: the pipeline-wide theorem is being proved, see /verif/wip/NoPanic_stub.lean.)
+ONLY property theorems live here (helper lemmas: InToto/Proofs/NoPanic.lean and the files it imports).
 -/
 import InToto.Proofs.PipeSigs
 import InToto.Proofs.PipeInspect
 import InToto.Proofs.RulesMore
 import InToto.Proofs.Sign
+import InToto.Proofs.NoPanic
 
 namespace InToto.C15
 open InToto InToto.Metadata InToto.Verify
+
+/-- C15 (MAIN): final-product verification — at every nesting depth, through either entry point, for
+    every layout (empty rules, zero or negative thresholds, steps without links, keys whose type
+    contradicts their material ...), every link directory and every world — never ends in a panic:
+    the explicit panic sites of the model are unreachable. -/
+theorem verification_never_panics (W : World) (ln : Bool) (ci : List Str) (fuel : Nat) (md : Md)
+    (keys : List (Str × Key)) (dir : Dir) (sn : Str) (params : List (Str × Str)) (rd : RunDirState) (acc : Acc) :
+    (verifyAux W ln ci fuel md keys dir sn params rd acc).out.isPanic = false :=
+  NoPanicProofs.verifyAux_no_panic W ln ci fuel md keys dir sn params rd acc
+
+/-- the panic site "no link metadata found" exists in the model and needs a step without links ... -/
+theorem reduce_panics_only_without_links (links : List (Str × LinkView)) :
+    (reduceStep links).isPanic = true ↔ links = [] :=
+  NoPanicProofs.reduceStep_panic_iff links
+
+/-- C15: loading arbitrary text (either loader) is an error or a value, never a crash -/
+theorem loading_never_panics (t : Str) : (loadMetadata t).isPanic = false ∧ (metablockLoad t).isPanic = false :=
+  ⟨NoPanicProofs.loadMetadata_no_panic t, NoPanicProofs.metablockLoad_no_panic t⟩
 
 /-- key material is judged, never crashed on (type contradicting material, malformed PEM, Ed25519
     halves of the wrong length ...) -/
